@@ -20,7 +20,9 @@ EXTRAS = [{}, {"indexes": [{"cols": [{"n": "b"}, {"n": "c"}], "primary": True}]}
           {"indexes": [{"cols": [{"n": "c"}], "unique": True}]}, {"fks": [{"name": "fk_b", "from_table": "t", "from_cols": ["b"], "to_table": "p", "to_cols": ["id"], "on_delete": "Cascade", "on_update": "SetNull"}]},
           {"fks": [{"from_table": "t", "from_cols": ["b"], "to_table": "p", "to_cols": ["id"]}]},
           {"checks": [{"k": "bin", "op": "SmallerThan", "l": {"k": "col", "n": "b"}, "r": {"k": "val", "v": V("Int", "100")}}]}, {"if_not_exists": True},
-          {"indexes": [{"name": "ix_b", "cols": [{"n": "b"}]}]}, {"comment": "it's a table", "engine": "InnoDB"}]
+          {"indexes": [{"name": "ix_b", "cols": [{"n": "b"}]}]}, {"comment": "it's a table", "engine": "InnoDB"},
+          {"indexes": [{"name": "ix_h", "cols": [{"n": "b"}], "index_type": "Hash"}]}, {"indexes": [{"name": "uq_t", "cols": [{"n": "b"}, {"n": "c"}], "unique": True, "index_type": "BTree"}]},
+          {"indexes": [{"name": "ft_c", "cols": [{"n": "c"}], "index_type": "FullText"}]}]
 COLX = {"name": "x", "type": T("Integer"), "specs": []}
 FOLLOW = [None,
           {"stmt": "table_alter", "table": "t", "ops": [{"k": "add_column", "col": {"name": "x", "type": T("String", n=16), "specs": [T("NotNull"), T("Default", v=V("String", "n/a"))]}}]},
@@ -34,19 +36,22 @@ FOLLOW = [None,
           {"stmt": "index_create", "name": "ix1", "table": "t", "cols": [{"n": "b"}]},
           {"stmt": "index_create", "name": "ix2", "table": "t", "cols": [{"n": "c", "o": "Desc"}, {"n": "b", "o": "Asc"}], "unique": True},
           {"stmt": "index_create", "name": "ix1", "table": "t", "cols": [{"n": "b"}], "if_not_exists": True},
-          {"stmt": "index_create", "name": "ix3", "table": "t", "cols": [{"n": "b"}], "where": {"k": "bin", "op": "GreaterThan", "l": {"k": "col", "n": "b"}, "r": {"k": "val", "v": V("Int", "5")}}},
+          {"stmt": "index_create", "name": "ix3", "table": "t", "cols": [{"n": "b"}], "where": {"k": "bin", "op": "GreaterThan", "l": {"k": "col", "n": "b"}, "r": {"k": "val", "v": V("Int", "5")}}, "where_cols": ["b"]},
           {"stmt": "index_create", "name": "ix4", "table": "t", "cols": [{"n": "c"}], "index_type": "Hash"},
           {"stmt": "index_create", "name": "ix5", "table": "t", "cols": [{"n": "c"}], "index_type": "FullText"},
           {"stmt": "index_create", "name": "ix6", "table": "t", "cols": [{"n": "b"}], "unique": True, "include": ["c"], "nulls_not_distinct": True},
           {"stmt": "index_create", "name": "ix7", "table": "t", "cols": [{"n": "b", "o": "Desc"}], "unique": True, "index_type": "BTree",
-           "where": {"k": "isnull", "neg": True, "e": {"k": "col", "n": "c"}}},
+           "where": {"k": "isnull", "neg": True, "e": {"k": "col", "n": "c"}}, "where_cols": ["c"]},
           {"stmt": "index_drop", "name": "ix1", "table": "t"},
+          {"stmt": "index_drop", "name": "ix1", "table": "t", "schema": "public", "if_exists": True},
+          {"stmt": "index_drop", "name": "ix1", "table": "t", "schema": "public"},
           {"stmt": "table_drop", "tables": ["t"]},
           {"stmt": "table_drop", "tables": ["t", "p"], "if_exists": True},
           {"stmt": "table_alter", "table": "t", "ops": [{"k": "modify_column", "col": {"name": "b", "type": T("BigInteger"), "specs": [T("NotNull")]}}]},
           {"stmt": "table_alter", "table": "t", "ops": [{"k": "modify_column", "col": {"name": "b", "type": T("Integer"), "specs": [T("Comment", s="x"), T("NotNull")]}}]},
           {"stmt": "table_alter", "table": "t", "ops": [{"k": "modify_column", "col": {"name": "b", "type": T("Integer"), "specs": [T("AutoIncrement"), T("NotNull")]}}]},
           {"stmt": "table_alter", "table": "t", "ops": [{"k": "modify_column", "col": {"name": "b", "type": T("Integer"), "specs": [T("Default", v=V("Int", "9")), T("Unique"), T("Null")]}}]},
+          {"stmt": "table_alter", "table": "t", "ops": [{"k": "modify_column", "col": {"name": "b", "type": T("Integer"), "specs": [T("NotNull"), T("Check", e={"k": "bin", "op": "GreaterThan", "l": {"k": "col", "n": "b"}, "r": {"k": "val", "v": V("Int", "0")}})]}}]},
           {"stmt": "table_alter", "table": "t", "ops": [{"k": "add_column", "col": COLX}, {"k": "drop_column", "name": "c"}, {"k": "rename_column", "from": "b", "to": "b3"}]},
           {"stmt": "table_alter", "table": "t", "ops": [{"k": "add_fk", "fk": {"name": "fk2", "from_table": "t", "from_cols": ["b"], "to_table": "p", "to_cols": ["id"], "on_delete": "Restrict"}}]},
           {"stmt": "table_alter", "table": "t", "ops": [{"k": "drop_fk", "name": "fk_b"}]},
@@ -55,16 +60,39 @@ FOLLOW = [None,
           {"stmt": "table_truncate", "table": "t"},
           {"stmt": "type_create", "name": "mood", "values": ["sad", "ok", "it's"]},
           {"stmt": "type_alter", "name": "mood", "op": "add_value", "value": "great", "after": "ok"},
+          {"stmt": "type_alter", "name": "mood", "op": "add_value", "value": "great", "before": "ok", "if_not_exists": True, "ine_first": True},
+          {"stmt": "type_alter", "name": "mood", "op": "add_value", "value": "great", "after": "sad", "if_not_exists": True},
+          {"stmt": "type_alter", "name": "mood", "op": "add_value", "value": "great", "if_not_exists": True},
           {"stmt": "type_alter", "name": "mood", "op": "rename_value", "value": "ok", "to": "fine"},
           {"stmt": "type_alter", "name": "mood", "op": "rename_to", "value": "feeling"},
-          {"stmt": "type_drop", "name": "mood", "if_exists": True, "cascade": True}]
+          {"stmt": "type_drop", "name": "mood", "if_exists": True, "cascade": True},
+          {"stmt": "extension_create", "name": "ltree"},
+          {"stmt": "extension_create", "name": "ltree", "schema": "public", "version": "v2", "cascade": True, "if_not_exists": True},
+          {"stmt": "extension_create", "name": "ltree", "version": "1.1"},
+          {"stmt": "extension_drop", "name": "ltree", "if_exists": True, "cascade": True},
+          {"stmt": "extension_drop", "name": "ltree", "restrict": True}]
 
 def menu():
     return {"schema": [[i for i in range(len(TYPES))], [i for i in range(len(SPECS))], [i for i in range(len(EXTRAS))], [i for i in range(len(FOLLOW))], [i for i in range(len(FOLLOW))]]}
 
+def all_statements():
+    """every distinct declaration of the space (for the design check MCSchema): each type with each specification list,
+    each table-level extra, each follow-up statement"""
+    out = []
+    for ty in TYPES:
+        for sp in SPECS:
+            out.append({"stmt": "table_create", "table": "t", "cols": [{"name": "a", "type": ty, "specs": sp}, {"name": "b", "type": T("Integer"), "specs": []}]})
+    for ex in EXTRAS:
+        tc = {"stmt": "table_create", "table": "t", "cols": [{"name": "a", "type": T("Integer"), "specs": []}, {"name": "b", "type": T("Integer"), "specs": []}, {"name": "c", "type": T("String", n=32), "specs": []}]}
+        tc.update(ex); out.append(tc)
+    out += [f for f in FOLLOW if f is not None]
+    return out
+
 def write_menu(path):
     with open(path, "w") as f:
         json.dump(menu(), f)
+    with open(os.path.join(os.path.dirname(path), "schema_stmts.json"), "w") as f:
+        json.dump(all_statements(), f)
 
 def assemble(picks):
     ty, sp, ex, f1, f2 = [p - 1 for p in picks]
